@@ -681,6 +681,35 @@ def lookalike_cases(ctx, upper_seen):
                  "ascii characters with non-ASCII equivalents": len(allm), "equivalent code points": sum(len(v) for v in allm.values())}
 
 
+GRAFT_EXEMPLARS = {
+    "date": ["20230921", "20240229"], "monthyear": ["202309", "202309w1"], "time": ["14:00:00", "23:59:59.123"],
+    "timestamp": ["20230921-14:00:00", "20230921-14:00:00.123"], "int": ["12", "-7", "0"], "float": ["1.5", ".5", "5."],
+    "char": ["A"], "boolean": ["Y", "N"], "code": ["US", "USD", "NYSE"], "string": ["ab"],
+}
+GRAFT_SUFFIXES = [".123", ".123456", ".1", ".000", "-14:00:00", "-14:00:00.123", "Z", "+00:00", "T14:00:00", "21", "w1", ".0", "e0", "E0",
+                  "e+0", "A", " ", "Y", "N", ":00", "00", "-", ".", "0", "1", ".5", "D"]
+GRAFT_PREFIXES = ["20230921-", "20230921", "2023", "-", "+", "0", " ", "Y", "T", "w1", "14:00:00.", "1.", "A"]
+
+
+def cross_type_grafts(upper_seen):
+    """a valid value of one type extended by a suffix / prefix that is legal in a SIBLING type (date + '.mmm', date + '-HH:MM:SS',
+    time + 'Z', MonthYear + day, time + date prefix, int + '.0', float + 'e0', char + second char, boolean + blank …);
+    every graft goes to EVERY datatype and must get the verdict of that type's lexical space"""
+    strings = {}
+    for kind, exs in GRAFT_EXEMPLARS.items():
+        for e in exs:
+            for x in GRAFT_SUFFIXES:
+                strings.setdefault(e + x, f"{kind}+suffix")
+            for x in GRAFT_PREFIXES:
+                strings.setdefault(x + e, f"prefix+{kind}")
+    out = [(t, "1", (), v) for v in sorted(strings) for t in sorted(upper_seen)]
+    by = {}
+    for k in strings.values():
+        by[k] = by.get(k, 0) + 1
+    in_space = sum(1 for (t, _, _, v) in out if t in SPEC and spec_accepts(t, "1", v))
+    return out, {"strings": len(strings), "by graft": by, "cases in the lexical space of their target type": in_space}
+
+
 def component_boundary_cases(upper_seen):
     """boundary values (00, 01, max, max+1, 99) of every numeric component of the date / time / MonthYear forms,
     component-wise around valid bases and pairwise for year/month/day; week codes w0..w6"""
@@ -916,11 +945,11 @@ def typed_cases(ctx, types, maxdigits):
         by_fmt[name.split(":")[0]] = by_fmt.get(name.split(":")[0], 0) + 1
         seen_str.setdefault(v, name)
     pf_strings = sorted(seen_str)
-    if ctx.tier != "thorough" and len(pf_strings) > 1100:
+    if ctx.tier != "thorough" and len(pf_strings) > 800:
         keep = [v for v in pf_strings if seen_str[v].split(":")[1] in ("str", "repr", "isoformat", "%g", "%e")]
         kset = set(keep)
         rest = [v for v in pf_strings if v not in kset]
-        pf_strings = sorted(set(keep[:700] + ctx.rng.sample(rest, max(0, 1100 - min(len(keep), 700)))))
+        pf_strings = sorted(set(keep[:500] + ctx.rng.sample(rest, max(0, 800 - min(len(keep), 500)))))
     for v in pf_strings:
         for t in sorted(upper_seen):
             cases.append((t, "1", (), v))
@@ -947,6 +976,13 @@ def typed_cases(ctx, types, maxdigits):
     cases += bc
     stats["component-boundaries:cases"] = len(cases) - n0
     stats["component-boundaries:values per type"] = bstats
+    # cross-type grafts
+    n0 = len(cases)
+    gc, gstats = cross_type_grafts(upper_seen)
+    cases += gc
+    stats["cross-type-grafts:cases"] = len(cases) - n0
+    stats["cross-type-grafts:detail"] = gstats
+    ctx.c19_grafts = {c[3] for c in gc}
     # tag 16, case variants of type names, unknown type, non-str / empty
     n0 = len(cases)
     for t in sorted(upper_seen):
@@ -1297,7 +1333,7 @@ def oracle(ctx, disagreements, broken):
             pool = list(zip(cases, impl_results))
         else:
             # modest sample: everything of length <= 2, every 7th longer case, all enumerated-field probes
-            pf = getattr(ctx, "c19_pf", set())
+            pf = getattr(ctx, "c19_pf", set()) | getattr(ctx, "c19_grafts", set())
             pool = [(c, r) for k, (c, r) in enumerate(zip(cases, impl_results))
                     if c[2] or not isinstance(c[3], str) or len(c[3]) <= 2 or k % 7 == 0 or c[3] in pf]
         for c, r in pool:
